@@ -142,7 +142,13 @@ def replay(cfg, hist):
             arr = np.array(b["v"], dtype=b["arr"])
             before = arr.copy()
             c.count(arr)
-            c.count(arr)            # the same array object handed over twice
+            if len(arr) % 2:
+                second = np.repeat(arr, 2)[::2]     # the same samples once more, as a view of a larger buffer (every other cell)
+                c.count(second)
+                if not np.array_equal(second, before):
+                    ARR_DAMAGE = (before.tolist(), second.tolist())
+            else:
+                c.count(arr)        # the same array object handed over twice
             if not np.array_equal(arr, before):
                 ARR_DAMAGE = (before.tolist(), arr.tolist())
             b = list(b["v"]) * 2
